@@ -295,6 +295,26 @@ func Silence() {
 	syscall.Dup2(int(null.Fd()), 1)
 }
 
+// SilenceStderr additionally sends fd 2 to /dev/null (the vendored scanner
+// prints a line per lexical error). Say keeps working through the saved fd.
+func SilenceStderr() {
+	if savedStderr < 0 {
+		savedStderr, _ = syscall.Dup(2)
+	}
+	null, err := os.OpenFile("/dev/null", os.O_WRONLY, 0)
+	if err != nil {
+		return
+	}
+	syscall.Dup2(int(null.Fd()), 2)
+}
+
+// RestoreStderr undoes SilenceStderr.
+func RestoreStderr() {
+	if savedStderr >= 0 {
+		syscall.Dup2(savedStderr, 2)
+	}
+}
+
 // Say writes to the original stderr even after Silence.
 func Say(format string, a ...any) {
 	fd := savedStderr
